@@ -157,7 +157,8 @@ BOUNDS = {
     'quick': 'all ordered type triples over {None,bool,int,float,Decimal,bytes,str,date,datetime,time,list/tuple}; '
              'int/bool/float/str symbolic (str length <= 1); bytes over {a,b} length <= 1; sequences of <= 2 cells from '
              'None|int|str; Decimal/date/datetime/time and every operand of a triple mixing numeric types from a fixed '
-             'list of representatives (finite sweep, exhausted); issorted/selectors over <= 3 rows',
+             'list of representatives (finite sweep, exhausted); every pair also compared wrapped-vs-raw in both operand positions; '
+             'issorted/selectors over <= 3 rows; selectlt/le/gt/ge over list/tuple cells and reference values (1 row quick, 2 thorough)',
     'thorough': 'as quick with str/bytes length <= 2',
 }
 OUTSIDE = ('NaN; timezone-aware datetimes; user-defined classes; Decimal/date/time values beyond the representatives; '
